@@ -19,7 +19,7 @@ for f in $DEMOS; do mkdir -p $W/$(dirname $f); cp $SRC/$f $W/$f; done
 PKGS=$(for f in $DEMOS; do echo ./$(dirname $f); done | sort -u | tr '\n' ' ')
 cd $W
 echo "== demo on unchanged tree ($PKGS)"
-go test -vet=off -count=1 $PKGS > /tmp/confirm-$ID.base.log 2>&1; BASE=$?
+go test ${DEMO_FLAGS:-} -vet=off -count=1 $PKGS > /tmp/confirm-$ID.base.log 2>&1; BASE=$?
 tail -3 /tmp/confirm-$ID.base.log
 git apply $PATCH || { echo "patch does not apply"; cleanup; exit 2; }
 echo "== existing suite with the change (demo moved aside)"
@@ -29,7 +29,7 @@ go test -vet=off -count=1 ./... > /tmp/confirm-$ID.suite.log 2>&1; SUITE=$?
 tail -4 /tmp/confirm-$ID.suite.log
 for f in $DEMOS; do mv $W/$f.aside $W/$f; done
 echo "== demo with the change"
-timeout 300 go test -vet=off -count=1 $PKGS > /tmp/confirm-$ID.mut.log 2>&1; MUT=$?
+timeout 300 go test ${DEMO_FLAGS:-} -vet=off -count=1 $PKGS > /tmp/confirm-$ID.mut.log 2>&1; MUT=$?
 tail -5 /tmp/confirm-$ID.mut.log
 echo "base=$BASE build=$BUILD suite=$SUITE mutated_demo=$MUT"
 if [ $BASE -eq 0 ] && [ $BUILD -eq 0 ] && [ $SUITE -eq 0 ] && [ $MUT -ne 0 ]; then
